@@ -9,7 +9,7 @@ import tempfile
 import time
 import z3
 
-Z3_TIMEOUT_MS = int(os.environ.get("PYVC_Z3_TIMEOUT_MS", "10000"))
+Z3_TIMEOUT_MS = int(os.environ.get("PYVC_Z3_TIMEOUT_MS", "8000"))
 CVC5_TIMEOUT_MS = int(os.environ.get("PYVC_CVC5_TIMEOUT_MS", "10000"))
 CVC5 = "/usr/bin/cvc5"
 
@@ -155,10 +155,17 @@ def _check_cvc5(smt2, timeout_ms):
 
 def solve_one(job):
     """job = (index, smt2 text, want_cvc5_too)"""
-    idx, smt2, both = job
+    idx, smt2, both = job[:3]
+    canary = len(job) > 3 and job[3]
     res = {"idx": idx, "status": "unknown", "backend": None, "time": 0.0,
            "model": None, "cvc5": None}
     try:
+        if canary:
+            r, dt, s = _check_z3(smt2, 1500)
+            res["time"] = dt
+            res["status"] = "unsat" if r == "unsat" else "not-unsat"
+            res["backend"] = "z3"
+            return res
         r, dt, s = _check_z3(smt2, Z3_TIMEOUT_MS)
         res["time"] += dt
         if r == "unsat":
@@ -222,7 +229,8 @@ def discharge(obligations, axioms, both=False, procs=None):
             ob.status = "unsat"
             ob.backend = "trivial"
             continue
-        jobs.append((i, to_smt2(axioms, ob.hyps, ob.goal), both))
+        jobs.append((i, to_smt2(axioms, ob.hyps, ob.goal), both,
+                     ob.kind == "canary"))
     if not jobs:
         return
     procs = procs or min(16, os.cpu_count() or 4, max(1, len(jobs)))
